@@ -117,6 +117,11 @@ structure Step (H : Type) where
   tree : HTree
   reply : Option (Reply H)       -- none: `Bye` (no reply)
   consumed : Nat                 -- content bytes consumed after the frame (Put)
+  fatal : Bool := false          -- a file-system error inside the handler (`?`): the session ends, no reply
+
+/-- some proper, non-empty prefix of the key is a regular file: `create_dir_all(parent)` fails -/
+def parentIsFile (t : HTree) (key : List (List Char)) : Bool :=
+  (List.range key.length).any fun n => 0 < n && (hget t (key.take n)).isSome
 
 /-- one request against the tree (`hash` = BLAKE3, `short` = first 12 hex of a hash). A `Put`
 streams exactly `min len available` bytes (`Read::take`). -/
@@ -140,7 +145,8 @@ def handle {H} [DecidableEq H] (hash : Bytes → H) (short : H → List Char) (t
     match safeJoin [] p with
     | none => { tree := t, reply := some (.error "bad path"), consumed := body.length }
     | some _ =>
-      if hash body ≠ h then { tree := t, reply := some (.error "content hash mismatch"), consumed := body.length }
+      if parentIsFile t (keyOf p) then { tree := t, reply := none, consumed := 0, fatal := true }
+      else if hash body ≠ h then { tree := t, reply := some (.error "content hash mismatch"), consumed := body.length }
       else
         let cur := (hget t (keyOf p)).map hash
         if casCommit cur expected then
@@ -184,6 +190,7 @@ def serveLoop {H} [DecidableEq H] (hash : Bytes → H) (short : H → List Char)
         | none => { replies := rs.reverse, tree := t, exit := .badBody, allocs := (len :: al).reverse }
         | some req =>
           let st := handle hash short t req (rest.drop len)
+          if st.fatal then { replies := rs.reverse, tree := t, exit := .ioError, allocs := (len :: al).reverse } else
           match st.reply with
           | none => { replies := rs.reverse, tree := st.tree, exit := .clean, allocs := (len :: al).reverse }
           | some r => serveLoop hash short decode fuel ((rest.drop len).drop st.consumed) st.tree (r :: rs) (len :: al)
